@@ -21,22 +21,25 @@ type Issue struct {
 
 // ProgResult is everything observed about one program.
 type ProgResult struct {
-	P         *Program
-	An        *Analysis
-	Batch     string
-	PreBad    string
-	Outcome   *PkgOutcome
-	LibDiags  []Diag
-	GenFile   string
-	BuildErr  string
-	Calls     []*CallTrace
-	Issues    []Issue
-	Crash     string
-	Incon     string
-	Files     map[string]string
-	GenStderr string
-	GenExit   int
-	Stats     map[string]int
+	P          *Program
+	An         *Analysis
+	Batch      string
+	PreBad     string
+	Outcome    *PkgOutcome
+	LibDiags   []Diag
+	GenFile    string
+	BuildErr   string
+	Calls      []*CallTrace
+	Issues     []Issue
+	Crash      string
+	Incon      string
+	Files      map[string]string
+	GenStderr  string
+	GenExit    int
+	Stats      map[string]int
+	CheckDiags []Diag
+	CheckExit  int
+	CheckRan   bool
 }
 
 func (pr *ProgResult) add(prop, clause, witness string) {
@@ -50,6 +53,8 @@ type PoolOpts struct {
 	Name      string
 	KeepGoing bool
 	ExtraEnv  []string
+	AlsoCheck bool // also run `wire check ./...` on every batch
+	NoGen     bool // only run check
 }
 
 // RunPool renders programs in batches, runs wire, builds, executes and evaluates.
@@ -92,6 +97,37 @@ func runBatch(e *Env, name string, progs []*Program, results []*ProgResult, idx 
 		results[idx[id]].PreBad = msg
 	}
 	if len(b.Progs) == 0 {
+		return
+	}
+	if opts.AlsoCheck || opts.NoGen {
+		b.Check(opts.ExtraEnv...)
+		if b.CheckRes.TimedOut || b.CheckRes.Crashed() || strings.Contains(b.CheckRes.Stderr, "VERIF-STEP-CAP") {
+			if len(b.Progs) == 1 {
+				pr := results[idx[b.Progs[0].ID]]
+				if b.CheckRes.TimedOut {
+					pr.Incon = "watchdog: wire check exceeded 180s"
+				} else {
+					pr.Crash = "wire check: " + tail(b.CheckRes.Stderr, 3000)
+					pr.GenStderr = b.CheckRes.Stderr
+					pr.Files = b.Progs[0].Files(false)
+				}
+				return
+			}
+			bisect(e, name, b.Progs, results, idx, opts, depth)
+			return
+		}
+		for _, p := range b.Progs {
+			pr := results[idx[p.ID]]
+			pr.CheckRan = true
+			pr.CheckExit = b.CheckRes.Exit
+			for i := range p.Pkgs {
+				if o := b.CheckOut[p.ImportPath(i)]; o != nil {
+					pr.CheckDiags = append(pr.CheckDiags, o.Diags...)
+				}
+			}
+		}
+	}
+	if opts.NoGen {
 		return
 	}
 	b.Gen(opts.ExtraEnv...)
